@@ -8,6 +8,7 @@ Vocabulary: `segments s` = the components of `s.split("/")` other than `""` and 
 -/
 import WzVerif.Lemmas.Paths
 import WzVerif.Model.StaticFiles
+import WzVerif.Gen.StaticGlue
 namespace Wz.Props.C14
 open Wz Wz.Paths
 
@@ -102,15 +103,16 @@ def Inside (d p : Str) : Prop :=
 text: what is left after percent-decoding, incl. `..`, `//`, NUL, backslashes), every directory and
 every state of the file system (`isfile` is an arbitrary predicate):
 * whatever `send_from_directory` sends lies inside `directory` (and is a file);
-* whatever `SharedDataMiddleware` serves comes from one of its exports `(search_path, directory)`
-  and either lies inside that `directory` or is the export itself requested by its exact key. -/
+* whatever `SharedDataMiddleware` serves comes from one of its exports - `(search_path, directory)`
+  or `(search_path, (package, package_path))` - and either lies inside that directory / package path
+  or is a directory export itself requested by its exact key. -/
 theorem served_path_inside_root (isfile : Str → Bool) :
     (∀ d path p, sendFromDirectory isfile d path = some p → Inside d p ∧ isfile p = true) ∧
     (∀ exports path p, sharedData isfile exports path = some p →
-      ∃ e ∈ exports, isfile p = true ∧ ((e.1 = path ∧ p = e.2) ∨ Inside e.2 p)) := by
-  have hload : ∀ d rel p, directoryLoader isfile d (some rel) = some p → Inside d p ∧ isfile p = true := by
+      ∃ e ∈ exports, isfile p = true ∧ ((e.1 = path ∧ e.2 = .dir p) ∨ Inside e.2.root p)) := by
+  have hjoin : ∀ d rel p, joinIfFile isfile d rel = some p → Inside d p ∧ isfile p = true := by
     intro d rel p h
-    simp only [directoryLoader] at h
+    unfold joinIfFile at h
     cases hj : safeJoin d [rel] with
     | none => simp [hj] at h
     | some q =>
@@ -120,23 +122,19 @@ theorem served_path_inside_root (isfile : Str → Bool) :
         cases h
         exact ⟨safe_join_contained _ d [rel] _ hj, hf⟩
       · cases h
+  have hload : ∀ ex rel p, loaderOf isfile ex (some rel) = some p → Inside ex.root p ∧ isfile p = true := by
+    intro ex rel p h
+    cases ex with
+    | dir d => exact hjoin d rel p h
+    | pkg pp => exact hjoin pp rel p h
   refine ⟨?_, ?_⟩
   · intro d path p h
-    simp only [sendFromDirectory] at h
-    cases hj : safeJoin d [path] with
-    | none => simp [hj] at h
-    | some q =>
-      simp only [hj] at h
-      split at h
-      · rename_i hf
-        cases h
-        exact ⟨safe_join_contained _ d [path] _ hj, hf⟩
-      · cases h
+    exact hjoin d path p h
   · intro exports
     induction exports with
     | nil => intro path p h; simp [sharedData] at h
     | cons e rest ih =>
-      obtain ⟨search, d⟩ := e
+      obtain ⟨search, ex⟩ := e
       intro path p h
       simp only [sharedData] at h
       generalize (if search.getLast? = some '/' then search else search ++ ['/']) = sp at h
@@ -145,30 +143,57 @@ theorem served_path_inside_root (isfile : Str → Bool) :
         cases h
         split at hexact
         · rename_i heq
-          simp only [directoryLoader] at hexact
-          split at hexact
-          · rename_i hf
-            cases hexact
-            exact ⟨(search, d), by simp, hf, Or.inl ⟨heq, rfl⟩⟩
-          · cases hexact
+          cases ex with
+          | dir d =>
+            simp only [loaderOf, directoryLoader] at hexact
+            split at hexact
+            · rename_i hf
+              cases hexact
+              exact ⟨(search, .dir _), by simp, hf, Or.inl ⟨heq, rfl⟩⟩
+            · cases hexact
+          | pkg pp => simp [loaderOf, packageLoader] at hexact
         · cases hexact
       · split at h
         · rename_i f hsub
           cases h
           split at hsub
-          · obtain ⟨h1, h2⟩ := hload d _ p hsub
-            exact ⟨(search, d), by simp, h2, Or.inr h1⟩
+          · obtain ⟨h1, h2⟩ := hload ex _ p hsub
+            exact ⟨(search, ex), by simp, h2, Or.inr h1⟩
           · cases hsub
         · obtain ⟨e, he, h1⟩ := ih path p h
           exact ⟨e, List.mem_cons_of_mem _ he, h1⟩
 
+/-- **Nothing decodes or rewrites the path behind the containment check** (AST facts, every run):
+in `send_from_directory`, in the directory loader and in the package loader of
+`SharedDataMiddleware`, the joined path variable is only ever assigned the result of `safe_join`
+(plus the trusted `_root_path` prefix / the export directory itself), and the only functions called
+are the file tests, the openers and `safe_join` - no `unquote`, no `replace`, no `normpath`. This is
+what makes `sendFromDirectory` / `directoryLoader` / `packageLoader` (join, then test, then open the
+very same text) a faithful model. -/
+theorem glue_keeps_checked_path :
+    (∀ a ∈ Gen.StaticGlue.sfdAssigns,
+      a ∈ ["safe_join(os.fspath(directory), os.fspath(path))", "os.path.join(kwargs['_root_path'], path_str)"]) ∧
+    (∀ a ∈ Gen.StaticGlue.dirLoaderAssigns, a ∈ ["safe_join(directory, path)", "directory"]) ∧
+    (∀ a ∈ Gen.StaticGlue.pkgLoaderAssigns, a ∈ ["safe_join(package_path, path)"]) ∧
+    (∀ c ∈ Gen.StaticGlue.sfdCalls,
+      c ∈ ["NotFound", "os.fspath", "os.path.isfile", "os.path.join", "safe_join", "send_file"]) ∧
+    (∀ c ∈ Gen.StaticGlue.dirLoaderCalls,
+      c ∈ ["os.path.basename", "os.path.isfile", "safe_join", "self._opener"]) ∧
+    (∀ c ∈ Gen.StaticGlue.pkgLoaderCalls,
+      c ∈ ["datetime.fromtimestamp", "isinstance", "len", "os.path.getmtime", "os.path.getsize",
+        "posixpath.basename", "reader.open_resource", "resource.getvalue", "safe_join"]) := by
+  decide
+
 example : sendFromDirectory (fun _ => true) "/srv/root".toList "a/../b.txt".toList
     = some "/srv/root/b.txt".toList := by decide
 example : sendFromDirectory (fun _ => true) "/srv/root".toList "../secret".toList = none := by decide
-example : sharedData (fun p => p == "/srv/root/x.css".toList) [("/static".toList, "/srv/root".toList)]
+example : sharedData (fun p => p == "/srv/root/x.css".toList) [("/static".toList, .dir "/srv/root".toList)]
     "/static/x.css".toList = some "/srv/root/x.css".toList := by decide
-example : sharedData (fun _ => true) [("/static".toList, "/srv/root".toList)]
+example : sharedData (fun _ => true) [("/static".toList, .dir "/srv/root".toList)]
     "/static/../../etc/passwd".toList = none := by decide
+/-- backslashes are ordinary characters on POSIX: the package loader hands them through unchanged -/
+example : sharedData (fun _ => true) [("/static".toList, .pkg "static".toList)]
+    "/static/..\\..\\secret.txt".toList = some "static/..\\..\\secret.txt".toList := by decide
 
 /-- Sanitised names use only `[A-Za-z0-9_.-]` (so they are ASCII), whatever the input and whatever
 the Unicode normalisation did before. -/
